@@ -3,4 +3,10 @@ coq/Raft, correspondence of that model with the implementation, runtime monitor 
 from props import raftcommon as R
 
 PROPS = ('C10',)
-correspondence, search, replay = R.standard_module('C10', PROPS)
+# "adding or removing one node at a time under any schedule preserves C01-C04": in schedules with membership changes a
+# safety record of C01-C04 is a C10 record as well
+_DYN = ('C01', 'C02', 'C03', 'C04')
+correspondence, search, replay = R.standard_module('C10', PROPS, {
+    'member_trace': _DYN, 'scenario:readded_address_partial_replay': _DYN, 'scenario:reelected_leader_membership_gate': _DYN,
+    'scenario:member_rollback': _DYN, 'scenario:snapshot_members': _DYN, 'scenario:snapshot_at_membership_entry': _DYN,
+    'scenario:d16': _DYN, 'scenario:d20': _DYN, 'scenario:observer_of_snapshot_installed_voter': _DYN})
